@@ -108,7 +108,7 @@ def shards(tier: str, seed: int) -> list[dict]:
     nsh = 12
     out = [{"kind": "exhaustive", "maxn": 4, "part": p, "parts": nsh} for p in range(nsh)]
     out += [{"kind": "sampled", "count": 60 if tier == "quick" else 6000} for _ in range(2 if tier == "quick" else 8)]
-    out += [{"kind": "overloads", "count": 150 if tier == "quick" else 5000}, {"kind": "properties", "count": 150 if tier == "quick" else 5000}]
+    out += [{"kind": "overloads", "count": 500 if tier == "quick" else 8000}, {"kind": "properties", "count": 400 if tier == "quick" else 8000}]
     if tier == "thorough":
         out += [{"kind": "exhaustive5", "part": p, "parts": 8} for p in range(8)]
     return out
@@ -339,17 +339,22 @@ def gen_overload_case(rng: random.Random) -> tuple[str, list[tuple[str, str]]]:
     if in_class:
         lines.append("class K:")
     deco = rng.choice(["@overload", "@typing.overload"])
+    # typeshed spelling for overloaded static/class methods: @overload stacked above another decorator
+    stacked = {n: rng.choice(["", "", "@staticmethod", "@classmethod"]) if in_class else "" for n in names}
     body = []
     for n, what, j in seq:
+        first = {"@staticmethod": "", "@classmethod": "cls, "}.get(stacked[n], selfp)
         if what == "ov":
             ann = ["int", "str", "bytes", "float"][j]
             extra = rng.choice(["", ", b=0", ", *a", ", **k"])
-            blk = [f"{deco}", f"def {n}({selfp}x: {ann}{extra}) -> {ann}: ..."]
+            blk = [f"{deco}"] + ([stacked[n]] if stacked[n] else []) + [f"def {n}({first}x: {ann}{extra}) -> {ann}: ..."]
             if guard and not in_class:
                 blk = ["if TYPE_CHECKING:"] + ["    " + b for b in blk]
             body.extend(blk)
         else:
-            body.append(f"def {n}({selfp}x, *a, b=0, **k): ...")
+            if stacked[n]:
+                body.append(stacked[n])
+            body.append(f"def {n}({first}x, *a, b=0, **k): ...")
     lines.extend(ind + b for b in body)
     return "\n".join(lines) + "\n", [("K" if in_class else "", n) for n in names]
 
@@ -365,7 +370,8 @@ def run_overload_case(rec, rng) -> None:  # noqa: ANN001
             mod = visit_source(src, "m")
             res = None
             for container, name in targets:
-                pyf = getattr(ns[container], name) if container else ns[name]
+                pyf = inspect.getattr_static(ns[container], name) if container else ns[name]
+                pyf = getattr(pyf, "__func__", pyf)
                 gf = mod[f"{container}.{name}" if container else name]
                 rec.count("overload_groups_compared")
                 pyovs = typing.get_overloads(pyf)
@@ -374,7 +380,7 @@ def run_overload_case(rec, rng) -> None:  # noqa: ANN001
                     res = (f"{name}: number of overloads differs", len(govs), len(pyovs))
                     break
                 for i, (g, c) in enumerate(zip(govs, pyovs)):
-                    res = compare_signature(rec, g, c, ns, f"{name} overload #{i}", False)
+                    res = compare_signature(rec, g, getattr(c, "__func__", c), ns, f"{name} overload #{i}", False)
                     if res:
                         break
                 if res:
